@@ -287,7 +287,7 @@ func (fi *FnInfo) errIsNilF(v ssa.Value, facts []Atom, depth int) tri {
 		return no // a concrete value boxed into error: non-nil interface
 	case *ssa.UnOp:
 		// package-level sentinel errors (var ErrX = errors.New(...)) are never nil
-		if g, ok := x.X.(*ssa.Global); ok && x.Op == token.MUL && strings.HasPrefix(g.Name(), "Err") {
+		if g, ok := x.X.(*ssa.Global); ok && x.Op == token.MUL && (strings.HasPrefix(g.Name(), "Err") || strings.HasPrefix(g.Name(), "err")) && isErrorType(deref(g.Type())) {
 			return no
 		}
 	case *ssa.Phi:
